@@ -951,8 +951,8 @@ impl FusionVisitor for MatMulScaleFusion {
             }
 
             let [lhs, rhs] = binary_op_input_ids(op_node)?;
-            let lhs_scalar = graph.get_scalar(lhs);
-            let rhs_scalar = graph.get_scalar(rhs);
+            let lhs_scalar: Option<f32> = graph.get_scalar(lhs);
+            let rhs_scalar: Option<f32> = graph.get_scalar(rhs);
 
             let (scale, scale_id, input) = match op_type {
                 "Mul" => match (lhs_scalar, rhs_scalar) {
@@ -969,6 +969,12 @@ impl FusionVisitor for MatMulScaleFusion {
 
             // The scale must not change the rank of the scaled value.
             check_scalar_rank(graph, scale_id, &[Some(input)]).ok()?;
+
+            // Scaling the inputs of a MatMul is only interchangeable with
+            // scaling its output for finite factors (eg. not for `X / 0`).
+            if !scale.is_finite() {
+                return None;
+            }
 
             Some((scale, input))
         };
